@@ -13,7 +13,7 @@ for modname in sys.argv[1:]:
     for e in mod.KNOWN:
         if e['id'] in have:
             continue
-        prop = e['id'].split('-')[0]
+        prop = e.get('property') or e['id'].split('-')[0]
         k['findings'].append({'id': e['id'], 'property': prop, 'kind': 'bounded', 'suite': modname,
                               'clause': e['clause'], 'match': e['match'], 'witness': e['inputs'], 'what': e['what']})
         print('added', e['id'])
